@@ -12,7 +12,7 @@ from vlib.campaign import chash
 from vlib.engine_d import Run, Schedule
 
 MSG_TYPES = ["StartStage", "StartTask", "RunTask", "CompleteTask", "CompleteStage", "CompleteWorkflow", "JumpToStage",
-             "SkipStage", "CancelStage", "ContinueParentStage"]
+             "SkipStage", "CancelStage", "ContinueParentStage", "ResumeStage", "PauseTask", "SignalStage", "CancelWorkflow"]
 
 
 class HoldSchedule(Schedule):
